@@ -752,6 +752,52 @@ func init() {
 			unsup("reflect.Value.Len of %T", iv.V)
 			return nil
 		},
+		// fastjson's unsafe views between []byte and string: copies (the parser does not write through them)
+		"github.com/valyala/fastjson.b2s": func(e *Engine, fn *ssa.Function, args []Val) Val {
+			return Str{B: append([]Val{}, e.bytesOf(args[0])...)}
+		},
+		"github.com/valyala/fastjson.s2b": func(e *Engine, fn *ssa.Function, args []Val) Val {
+			b := append([]Val{}, e.bytesOf(args[0])...)
+			return Slice{O: e.newObj(Agg{F: b}), Len: len(b), Cap: len(b)}
+		},
+		// sync.Map as an ordinary map kept as ghost state of the object (keys by canonical form; thread-safe by contract:
+		// its operations are synchronisation points and are not watched by the race detector)
+		"(*sync.Map).Load": func(e *Engine, fn *ssa.Function, args []Val) Val {
+			m := e.syncMapOf(args[0].(Ptr))
+			e.acquire(e.ghostKey(args[0].(Ptr)) + ":syncmap")
+			if i, ok := m.idx[e.canonKey(args[1])]; ok {
+				return Tuple{copyVal(m.vals[i]), Bool{C: true}}
+			}
+			return Tuple{Iface{}, Bool{}}
+		},
+		"(*sync.Map).Store": func(e *Engine, fn *ssa.Function, args []Val) Val {
+			m := e.syncMapOf(args[0].(Ptr))
+			e.noRace++
+			e.mapSet(m, args[1], args[2])
+			e.noRace--
+			e.release(e.ghostKey(args[0].(Ptr)) + ":syncmap")
+			return nil
+		},
+		"(*sync.Map).LoadOrStore": func(e *Engine, fn *ssa.Function, args []Val) Val {
+			m := e.syncMapOf(args[0].(Ptr))
+			e.acquire(e.ghostKey(args[0].(Ptr)) + ":syncmap")
+			if i, ok := m.idx[e.canonKey(args[1])]; ok {
+				return Tuple{copyVal(m.vals[i]), Bool{C: true}}
+			}
+			e.noRace++
+			e.mapSet(m, args[1], args[2])
+			e.noRace--
+			e.release(e.ghostKey(args[0].(Ptr)) + ":syncmap")
+			return Tuple{args[2], Bool{}}
+		},
+		"(*sync.Map).Delete": func(e *Engine, fn *ssa.Function, args []Val) Val {
+			m := e.syncMapOf(args[0].(Ptr))
+			e.noRace++
+			e.mapDelete(m, args[1])
+			e.noRace--
+			e.release(e.ghostKey(args[0].(Ptr)) + ":syncmap")
+			return nil
+		},
 		"runtime.Gosched": func(e *Engine, fn *ssa.Function, args []Val) Val { e.freeYield("Gosched"); return nil },
 		"runtime.KeepAlive": nop,
 	}
@@ -1635,6 +1681,20 @@ func stubMarshalNode(e *Engine, fn *ssa.Function, args []Val) Val {
 func (e *Engine) atomicField(p Ptr) Ptr {
 	a := e.loadRaw(p).(Agg)
 	return Ptr{O: p.O, P: extPath(p.P, len(a.F)-1)}
+}
+
+func (e *Engine) syncMapOf(p Ptr) *MapObj {
+	k := e.ghostKey(p)
+	if e.syncMaps == nil {
+		e.syncMaps = map[string]*MapObj{}
+	}
+	m, ok := e.syncMaps[k]
+	if !ok {
+		e.objID++
+		m = &MapObj{idx: map[string]int{}, dead: map[int]bool{}, id: e.objID}
+		e.syncMaps[k] = m
+	}
+	return m
 }
 
 func (e *Engine) atomicKey(p Ptr) string { return fmt.Sprintf("at%d%v", p.O.id, p.P) }
